@@ -214,8 +214,9 @@ def scan_trusted(text):
 
 
 def simple(name):
-    """verus function name -> comparable suffix (drop the crate/module prefix)"""
-    return name.split("::", 1)[1] if "::" in name else name
+    """verus function name -> comparable suffix (drop the crate/module prefix; Verus numbers anonymous impl blocks, which is not stable)"""
+    n = name.split("::", 1)[1] if "::" in name else name
+    return re.sub(r"impl&%\d+", "impl", n)
 
 
 # ----------------------------------------------------------------------------------------------
@@ -283,10 +284,12 @@ def decide_verus(prop, tier, seed, notes):
         for run, f in futs.items():
             results[run] = f.result()
     obligations, violations, undecided = [], [], []
+    script_lost = []
     for (u, var), r in results.items():
         label = u + ("[" + ",".join(var) + "]" if var else "")
         if r["status"] != "ok":
-            undecided.append(f"{label}: {r['status']}: {r.get('detail', '')[:1500]}")
+            if "VACUITY" not in var:
+                script_lost.append({"unit": u, "label": label, "why": f"{r['status']}: {r.get('detail', '')[:1500]}"})
             continue
         if "VACUITY" in var:
             want = set(nows(i["path"]) for i in r["items"] if i["kind"] == "fn" and "original" in i and has_body(i))
@@ -353,6 +356,10 @@ def decide_verus(prop, tier, seed, notes):
                 contract_errs = [e for e in errs if e["kind"] == "verification" and not e["in_hint"] and "invariant" not in e["message"]]
                 violations.append({"obligation": f"{label}::{s}", "unit": u, "variant": list(var), "function": s,
                                    "hint_only": not contract_errs, "errors": errs or [{"message": "function-level failure without located diagnostic"}]})
+    # a unit that no longer extracts/compiles is 'undecided' unless its witness harness finds a concrete counterexample (run_property)
+    for sl in script_lost:
+        violations.append({"obligation": f"{sl['label']}::<unit>", "unit": sl["unit"], "variant": [], "function": "<unit>", "hint_only": True,
+                           "script_lost": sl["why"], "errors": [{"message": "the unit no longer extracts or compiles (proof script lost its anchor)", "clause": sl["why"][:300]}]})
     return obligations, violations, undecided, results
 
 
@@ -419,7 +426,10 @@ def run_property(prop, tier, seed):
     for v in violations:
         w = kani_run.witness_for(v, k_info)
         if v["hint_only"] and not w:
-            undecided.append(f"{v['obligation']}: only proof-script hints/invariants fail and the witness harness found no counterexample (proof script no longer applies)")
+            if v.get("script_lost"):
+                undecided.append(f"{v['obligation']}: {v['script_lost']} — and the witness harness found no counterexample")
+            else:
+                undecided.append(f"{v['obligation']}: only proof-script hints/invariants fail and the witness harness found no counterexample (proof script no longer applies)")
             continue
         v["witness"] = w
         final_viol.append(v)
